@@ -81,14 +81,17 @@ def replay(p):
             res = [str(r) for r in dg.resonances]
             base, g = ff.cal_fitfractions(amp, [mc], res=res, batch=None)
             tot = sum(float(v) for v in base.values())
-            errs = [abs(tot - 1)]
+            # (the sum rule presupposes that every chain belongs to exactly one listed resonance: not the case for CFG4)
+            shared = cfg == "CFG4"
+            errs = [] if shared else [abs(tot - 1)]
             for b in (1, 2):
                 fr, _ = ff.cal_fitfractions(amp, mc, res=res, batch=b)
                 errs += [abs(float(fr[k]) - float(base[k])) for k in base]
             obj = ff.FitFractions(amp, res)
             obj.integral(mc, batch=1)
             fr3, _g3 = obj.get_frac_grad(sum_diag=False)
-            errs.append(abs(sum(float(v) for v in fr3.values()) - 1))
+            if not shared:
+                errs.append(abs(sum(float(v) for v in fr3.values()) - 1))
             errs += [abs(float(fr3[k]) - float(base[k])) for k in base if k in fr3]
             fr2 = ff.cal_fitfractions_no_grad(amp, mc, res=res, batch=1)
             fr2 = fr2[0] if isinstance(fr2, tuple) else fr2
@@ -106,9 +109,12 @@ def replay(p):
                 amp.set_params({n: x0[n] - h})
                 dn, _ = ff.cal_fitfractions(amp, [mc], res=res, batch=None)
                 amp.set_params({n: x0[n]})
-                for k in list(base)[:3]:
+                for k in list(base):
                     num = (float(up[k]) - float(dn[k])) / (2 * h)
                     errs.append(abs(float(np.asarray(g[k]).reshape(-1)[pi_]) - num) / 100)
+                    # the gradient returned by the FitFractions class (same fractions, other code path)
+                    if k in _g3:
+                        errs.append(abs(float(np.asarray(_g3[k]).reshape(-1)[pi_]) - num) / 100)
             err = max(errs)
             return {"reproduced": bool(err > 1e-7), "error_magnitude": err}
     except Exception as e:
